@@ -1024,6 +1024,16 @@ func c08Gen(r *kit.Rand, seeds []c08Seed, quick bool) c08Case {
 		cs.dict["Filter"] = pdf.Name("JBIG2Decode")
 		cs.body = c08JBIG2Segments(r)
 		cs.chain = []string{"JBIG2Decode"}
+	case k < 18 && r.Chance(1, 10):
+		// rows of 8 pixels whose first horizontal-mode run is one pixel too long
+		// (white run 9, black run 0), byte-aligned: N rows are N bytes
+		cs.class = "ccitt-overlong-first-run"
+		n := 1 + r.Intn(3000)
+		cs.dict["Filter"] = pdf.Name("CCITTFaxDecode")
+		cs.dict["DecodeParms"] = pdf.Dict{"K": pdf.Integer(-1), "Columns": pdf.Integer(8), "Rows": pdf.Integer(n), "EncodedByteAlign": pdf.Boolean(true)}
+		cs.body = bytes.Repeat([]byte{0x34, 0x0D, 0xC0}, n)
+		cs.chain = []string{"CCITTFaxDecode"}
+		cs.maxOut = int64(n)
 	case k < 18 && r.Chance(1, 2):
 		cs.class = "ccitt-code-level"
 		cols := kit.Pick(r, []int{1 << 15, 1 << 16, 1 << 17})
